@@ -22,6 +22,23 @@ Proof.
   rewrite final_sig_enc, (final_sig_raw s NP). repeat split; apply pct_decode_enc, OK.
 Qed.
 
+(* whatever the caller passes — raw, encoded in any letter case, or a mixture — the final signature
+   decodes to what the input decodes to: nothing is ever encoded twice, nothing is left unencoded
+   that the input did not already present as text to be taken literally *)
+Theorem signature_decodes e : bytes_ok e = true -> pct_decode (final_sig e) = pct_decode e.
+Proof.
+  intros OK. unfold final_sig. destruct (contains PCT e) eqn:C; [reflexivity|].
+  rewrite pct_decode_enc by exact OK. symmetry. apply pct_decode_no_pct, C.
+Qed.
+
+Theorem signature_wf e : bytes_ok e = true -> contains PCT e = false \/ query_wf e = true ->
+  query_wf (final_sig e) = true.
+Proof.
+  intros OK H. unfold final_sig. destruct (contains PCT e) eqn:C.
+  - destruct H as [H|H]; [discriminate|exact H].
+  - rewrite <- (app_nil_r (enc e)). rewrite query_wf_enc_app by exact OK. reflexivity.
+Qed.
+
 (* ================= query string ================= *)
 
 Definition kv_param (kv : bytes * bytes) : bytes := param (fst kv) (snd kv).
@@ -187,7 +204,7 @@ Proof.
       repeat split.
       + repeat constructor; cbn [fst snd]; auto; apply enc_contains; auto.
       + repeat constructor; cbn [fst snd]; try (apply closed_safe; assumption). apply closed_enc, OK.
-      + rewrite !pct_decode_no_pct by assumption. rewrite pct_decode_enc by exact OK. reflexivity.
+      + rewrite pct_decode_enc by exact OK. rewrite !pct_decode_no_pct by assumption. reflexivity.
       + rewrite !pct_decode_no_pct by assumption. reflexivity.
     - destruct (query_safe_contains n SN) as [n1 [n2 n3]]. repeat split.
       + repeat constructor; cbn [fst snd]; auto.
@@ -200,7 +217,7 @@ Proof.
       repeat split.
       + repeat constructor; cbn [fst snd]; auto; apply enc_contains; auto.
       + repeat constructor; cbn [fst snd]; try (apply closed_safe; assumption). apply closed_enc, OK.
-      + rewrite !pct_decode_no_pct by assumption. rewrite pct_decode_enc by exact OK. reflexivity.
+      + rewrite pct_decode_enc by exact OK. rewrite !pct_decode_no_pct by assumption. reflexivity.
       + rewrite !pct_decode_no_pct by assumption. reflexivity.
     - repeat split; constructor. }
   destruct OKS as [F1 [F2 [F3 F4]]].
@@ -209,6 +226,59 @@ Proof.
   assert (PQ : parse_query (query_of a) = raw_pairs a s) by (unfold parse_query; rewrite SQ; exact F3).
   repeat split; auto.
   unfold monitor_username, build_username. rewrite app_assoc, strip_prefix_app, WF, PQ, F4. apply pairs_eqb_refl.
+Qed.
+
+Lemma closed_of_wf x : query_wf x = true -> closed x.
+Proof. intros H r. apply query_wf_app, H. Qed.
+
+Lemma uri_encoded_props x : uri_encoded x = true -> closed x /\ contains AMP x = false /\ contains EQS x = false.
+Proof.
+  unfold uri_encoded. intros H. apply andb_prop in H. destruct H as [H E]. apply andb_prop in H. destruct H as [W A].
+  split; [apply closed_of_wf, W|]. split; [destruct (contains AMP x)|destruct (contains EQS x)]; auto; discriminate.
+Qed.
+
+(* the same under the documented precondition only: name and key may carry their own escapes; they
+   are then judged after decoding (expected_pairs) *)
+Theorem query_wellformed_encoded a s : auth_encoded a = true -> sig_is a s ->
+  query_wf (query_of a) = true /\
+  split_query (query_of a) = raw_pairs a (enc s) /\
+  parse_query (query_of a) = expected_pairs a s /\
+  monitor_username a s (build_username a) = true.
+Proof.
+  intros SAFE SIG.
+  assert (Q : query_of a = join [AMP] (map kv_param (raw_pairs a (enc s)))).
+  { unfold query_of. rewrite build_query_params_kv, (kv_list_raw a s SIG). reflexivity. }
+  destruct NAME_PARAM_facts as [NA [NE [NP NS]]]. destruct SIG_PARAM_facts as [SA [SE [SP SS]]].
+  unfold auth_encoded in SAFE. apply andb_prop in SAFE. destruct SAFE as [SN SK].
+  assert (OKS : Forall kv_ok (raw_pairs a (enc s)) /\
+                Forall (fun kv => closed (fst kv) /\ closed (snd kv)) (raw_pairs a (enc s)) /\
+                map (fun kv => (pct_decode (fst kv), pct_decode (snd kv))) (raw_pairs a (enc s)) = expected_pairs a s).
+  { unfold raw_pairs, expected_pairs.
+    destruct (a_name a) as [n|]; destruct (a_signed a) as [[[sg k] v]|] eqn:E; cbn [app map fst snd].
+    - destruct (final_sig_of a s sg k v SIG E) as [B _]. apply andb_prop in SK. destruct SK as [Sk Sv].
+      destruct (uri_encoded_props n SN) as [n1 [n2 n3]]. destruct (uri_encoded_props k Sk) as [k1 [k2 k3]].
+      destruct (query_safe_contains v Sv) as [v1 [v2 v3]]. pose proof (base64_bytes_ok s B) as OK.
+      repeat split.
+      + repeat constructor; cbn [fst snd]; auto; apply enc_contains; auto.
+      + repeat constructor; cbn [fst snd]; auto; try (apply closed_safe; assumption). apply closed_enc, OK.
+      + rewrite pct_decode_enc by exact OK. rewrite (pct_decode_no_pct v), (pct_decode_no_pct NAME_PARAM), (pct_decode_no_pct SIG_PARAM) by assumption. reflexivity.
+    - destruct (uri_encoded_props n SN) as [n1 [n2 n3]]. repeat split.
+      + repeat constructor; cbn [fst snd]; auto.
+      + repeat constructor; cbn [fst snd]; auto; apply closed_safe; assumption.
+    - destruct (final_sig_of a s sg k v SIG E) as [B _]. apply andb_prop in SK. destruct SK as [Sk Sv].
+      destruct (uri_encoded_props k Sk) as [k1 [k2 k3]].
+      destruct (query_safe_contains v Sv) as [v1 [v2 v3]]. pose proof (base64_bytes_ok s B) as OK.
+      repeat split.
+      + repeat constructor; cbn [fst snd]; auto; apply enc_contains; auto.
+      + repeat constructor; cbn [fst snd]; auto; try (apply closed_safe; assumption). apply closed_enc, OK.
+      + rewrite pct_decode_enc by exact OK. rewrite (pct_decode_no_pct v), (pct_decode_no_pct SIG_PARAM) by assumption. reflexivity.
+    - repeat split; constructor. }
+  destruct OKS as [F1 [F2 F3]].
+  assert (WF : query_wf (query_of a) = true) by (rewrite Q; apply closed_wf, closed_join, F2).
+  assert (SQ : split_query (query_of a) = raw_pairs a (enc s)) by (rewrite Q; apply split_query_join, F1).
+  assert (PQ : parse_query (query_of a) = expected_pairs a s) by (unfold parse_query; rewrite SQ; exact F3).
+  repeat split; auto.
+  unfold monitor_username, build_username. rewrite app_assoc, strip_prefix_app, WF, PQ. apply pairs_eqb_refl.
 Qed.
 
 (* the split between username and query is found by the first '?' when the user's part has none *)
@@ -317,4 +387,16 @@ Proof.
   intros NE. unfold aws_build. cbn [fst].
   destruct (client_id uuid (option_map build_auth auth) (match uc with Some o => o | None => default_connect_options end) NE)
     as [c [H1 [H2 _]]]. exists c. split; assumption.
+Qed.
+
+Theorem aws_build_custom_auth uuid a uc ucl :
+  let o := match uc with Some o => o | None => default_connect_options end in
+  let r := fst (aws_build uuid (Some a) uc ucl) in
+  co_username r = Some (build_username a) /\
+  co_password r = match a_pass a with Some p => Some p | None => co_password o end.
+Proof.
+  cbn zeta. unfold aws_build, final_connect_options. cbn [fst option_map build_auth].
+  destruct (a_pass a);
+    destruct (co_client_id (match uc with Some o => o | None => default_connect_options end)) as [[|x c]|];
+    cbn; split; reflexivity.
 Qed.
